@@ -6,10 +6,66 @@ HERE = os.path.dirname(os.path.dirname(os.path.abspath(__file__)))
 
 # property id -> (technique, level text, level note, design ref)
 CHECKS = {
- "C01": ("differential runtime monitor: real Apply vs independent RFC 6902 reference evaluator on seeded state-directed operation sequences, under the pool sanitizer",
-         "Exploration. Every case runs DecodePatch+ApplyWithOptions of the library built from the working tree and an independent reference evaluator; success/failure and the value (members unordered, numbers by literal, strings by code point) must agree inside the property's stated domain. Bounded-exhaustive over all single operations on 12 fixed documents x their pointer universe (resolvable + near-miss) x both negative-index settings; seeded random sequences of 1-12 (thorough: up to 40) operations generated against the state the reference has reached; dedicated families for copy isolation, null-then-test, move = remove+add, root replacement followed by operations. Workers run with the pool sanitizer off / poison / fresh.",
-         "Trusted: the reference evaluator and parser in harness/ (self-tested on the RFC 6902 appendix A, RFC 6901 section 5 examples; parser cross-checked with encoding/json), the Go toolchain. Only the generated cases are covered: documents of depth <= 5, <= 40 operations.",
-         "DESIGN.md section 6 C01"),
+ "C01": ("differential runtime monitor: real DecodePatch+Apply vs independent RFC 6902 reference evaluator on seeded state-directed operation sequences and an exhaustive single-operation family, under the pool sanitizer",
+         "Exploration. Success/failure and value (members unordered, numbers by literal, strings by code point) of the real library must agree with an independent reference evaluator inside the property's stated domain. Bounded-exhaustive: all single operations on 12 fixed documents x their pointer universe (resolvable + near-miss) x both negative-index settings (~65k). Seeded: sequences of 1-12 (thorough: 40) operations generated against the state the reference has reached; families for copy isolation, null-then-test, move = remove+add (library against itself), root replacement followed by operations.",
+         T, "DESIGN.md section 6 C01"),
+ "C02": ("differential runtime monitor: real MergePatch vs the RFC 7396 pseudo-code implemented independently, exhaustive over all pairs of a value universe plus seeded derived patches",
+         "Exploration. MergePatch output (unordered, numbers by literal) must equal RFC 7396's MergePatch for non-null documents; non-object patches must come back verbatim. Exhaustive: all ordered pairs of a 60-value universe; seeded: patches derived from the document (delete/replace/merge/type change, nulls at every depth, arrays holding objects with null members) and independent pairs.",
+         T, "DESIGN.md section 6 C02"),
+ "C03": ("metamorphic + reference monitor: CreateMergePatch output checked for minimality and round-tripped through the RFC 7396 reference and the library's own MergePatch",
+         "Exploration. For accepted pairs the patch must be {} iff A equals B, mention only differing members, carry removed members as null and B's number literals; when B has no null member, applying it (reference and library) must give B. Rejection clause over all ordered pairs of root kinds. Exhaustive over the object universe and root-kind pairs; seeded edited objects (small deep diffs), independent objects, arrays of objects.",
+         T, "DESIGN.md section 6 C03"),
+ "C04": ("crash/panic monitor: recover() around every exported entry point of both packages inside isolated worker processes with a crash journal and per-case watchdogs, on hostile, mutated, enumerated and deeply nested inputs",
+         "Exploration. Every exported entry point of v5 and of the staged legacy package is called on awkward valid inputs, byte mutations, all <=3-token strings for each []byte parameter (quick: all <=2-token strings plus a stride of the 3-token ones), the full option matrix (256 combinations), nesting depths up to 100000 and overflow-sized tokens. A panic is caught by recover(), a fatal error or kill is attributed to the journalled case by the driver, a case exceeding the watchdog is re-run alone with 5x budget (only a second time-out is a hang).",
+         "Trusted: Go runtime's recover and process exit status. 'Never hangs' is decided in the bounded form stated in DESIGN.md section 9. Inputs beyond the generator bounds are not covered.", "DESIGN.md section 6 C04"),
+ "C05": ("ordered, literal-exact differential monitor: outputs parsed by an order-preserving parser and compared with the reference's order model; invariant hook on the live tree",
+         "Exploration. Apply outputs must match the reference member by member, in order, number literals as text; the empty patch must reproduce order and literals; MergePatch must keep survivors in document order ahead of new members and untouched members identical. The ApplyEnd hook walks the live tree (key list vs member map agreement) at the end of every call.",
+         T, "DESIGN.md section 6 C05"),
+ "C06": ("differential runtime monitor: real Equal vs independent deep comparison, exhaustive over universe pairs, plus symmetry/transitivity/reflexivity laws on generated pairs and triples",
+         "Exploration. Equal must agree with an independent structural comparison (false for ill-formed input) on pairs equal by construction (shuffles, whitespace, re-escaped strings), one-point differences, null shapes, ill-formed and identical ill-formed texts; every pair is also asked swapped; triples for transitivity.",
+         T, "DESIGN.md section 6 C06"),
+ "C07": ("law monitor: MergeMergePatches result vs reference composition, and merge(merge(D,P1),P2) = merge(D,combined) applied by the reference and by the library on several documents",
+         "Exploration. Compatible pairs over a small shared key space (so they collide) plus all universe pairs; the combined patch must equal the reference composition and the sequential/combined applications must agree on an empty document, a document holding every mentioned key and random documents.",
+         T, "DESIGN.md section 6 C07"),
+ "C08": ("differential + hook monitor: error classes (errors.Is/As) vs the reference's first failing operation and cause; H1 operation-loop events show nothing executes after the first failure",
+         "Exploration. Sequences with inapplicable operations planted at any position; the library must return (nil, err) with ErrTestFailed iff failed test, *AccumulatedCopySizeError iff copy limit, ErrMissing for absent members / unreachable parents; the OpDone hook must report exactly first-failure+1 operations; Apply(P) must equal Apply(P[:k+1]). Floor: 17 (operation, cause) cells each hit >= 20 times.",
+         T, "DESIGN.md section 6 C08"),
+ "C09": ("history monitor: inputs in mprotect'ed pages with guard pages (writes fault), Patch snapshots, every call of a history compared with the same call run alone in a fresh process, retained outputs re-checked; pool sanitizer off/poison/fresh",
+         "Exploration. ~140 calls per pool over all entry points sharing 6 decoded Patches and ~60 write-protected input buffers; all ordered pairs of (API, class) cells and random histories of 50-500 calls (some under GOGC=1); results must equal the alone-in-a-fresh-process results, retained outputs must not change, arguments must not be written (fault) or restructured (snapshot).",
+         "Trusted: a call run alone in a fresh process defines its result; mprotect/SetPanicOnFault. Histories longer than 500 calls and other call pools are not covered.", "DESIGN.md section 6 C09"),
+ "C10": ("Go race detector over a barrier-released concurrent workload + result-vs-alone comparison + pool ownership sanitizer + schedule perturbation (yield hooks, GOMAXPROCS, GOGC=1, cold-start stampedes)",
+         "Exploration. The same rounds run in a -race build (reports parsed from the log; any report with a library frame is a violation; a canary race proves the detector reports) and a plain build (more rounds): 2-64 goroutines, shared Patch and shared write-protected inputs, all entry points, results compared with alone-in-a-fresh-process results, pool ownership checked, run-time generated struct types through the codec, fresh-process stampedes.",
+         "Trusted: the Go race runtime (reports only races between accesses that executed), sampled schedules. Evidence lists goroutines, GOMAXPROCS values, pooled states in flight and distinct interleaving signatures.", "DESIGN.md section 6 C10"),
+ "C11": ("differential runtime monitor: real DecodePatch vs reference acceptor, exhaustive over member mutations of canonical operations; accessor results vs decoded members",
+         "Exploration. Exhaustive: 6 operations x each member x 19 mutations + odd element kinds, alone and planted at 9 positions (thorough: all pairs of mutants), root kinds; seeded valid and byte-mutated patches. Accept/reject must match the rule in the property; accepted patches: Kind/Path/From/ValueInterface must return the decoded members.",
+         T, "DESIGN.md section 6 C11"),
+ "C12": ("hook monitor: CopyAccounted(size,total) events compared with reference sizes at every copy (decides all limits at once) + limit placed at every prefix total -1/+0/+1; legacy package at the call boundary",
+         "Exploration. Encoder-spelled documents, copy-heavy sequences; v5 per-call limit and package default, legacy package default; error must be *AccumulatedCopySizeError exactly when the reference total exceeds a positive limit; limit 0 disables; other operations never produce accounting events.",
+         T, "DESIGN.md section 6 C12"),
+ "C13": ("metamorphic monitor: Apply(option on, P) vs Apply(option off, P minus the removes the reference says address absent targets), plus the reference itself",
+         "Exploration. Exhaustive single operations and seeded remove-heavy sequences; document bytes or error class must match between the two runs of the library, and the reference; the failing operation must be the same one (OpDone hook).",
+         T, "DESIGN.md section 6 C13"),
+ "C14": ("reference + independent postcondition monitor: ensure-then-add reference, resolver finds the added value, frame check over every pre-existing pointer, created containers hold only path and padding, plain adds unchanged",
+         "Exploration. Exhaustive: all paths of <=3 (thorough 4) tokens over 9 tokens on 8 documents x 2 values; seeded random paths with existing prefixes followed by further operations.",
+         T, "DESIGN.md section 6 C14"),
+ "C15": ("byte-level output monitor: independent RFC 8259 recogniser + encoding/json on every output, raw-HTML-byte scan, EscapeRaw(off)==on identity, reference re-indentation, passing-test invariance",
+         "Exploration. Hostile strings and member names (<,>,&,U+2028/9, quotes, backslashes, controls, non-BMP, lone surrogates) in touched/untouched/copied/moved/tested positions; all five producing entry points.",
+         T + " Byte-identity clauses only on encoder-spelled inputs (stated domain).", "DESIGN.md section 6 C15"),
+ "C16": ("language-equality monitor: embedded codec acceptors vs independent recogniser (encoding/json as second opinion) exhaustively over short byte/token strings; entry-point gates per []byte parameter",
+         "Exploration. Exhaustive: all byte strings <=4 (thorough 5) over 20 symbols, all <=3 (thorough 4) token sequences over 42 tokens, nesting 9999/10000/10001; seeded generated and mutated texts; 11 entry-point gates on the token set and generated texts.",
+         T + " Ill-formed UTF-8 compared with encoding/json only.", "DESIGN.md section 6 C16"),
+ "C17": ("differential monitor: embedded codec vs this toolchain's encoding/json and an independent parser, on texts, Go values and run-time generated struct types, in one long history per worker under the pool sanitizer",
+         "Exploration. Round trip and key lists vs the ordered parser; Compact/Indent/HTMLEscape bytes; Marshal/MarshalIndent/MarshalEscaped/Encoder bytes; Unmarshal/Decoder into reflect.StructOf types with tags; Decoder streams (Decode/Token/More/Buffered/InputOffset); values, bytes, error presence and SyntaxError offsets must agree.",
+         "Trusted: go1.23 encoding/json as ground truth; normalised: U+0008/U+000C spelling and the Number type.", "DESIGN.md section 6 C17"),
+ "C18": ("differential runtime monitor: legacy package (staged from /repo root at check time) vs the reference evaluator in the v4 dialect",
+         "Exploration. Exhaustive single operations and seeded sequences; all-applicable sequences must give the RFC result up to member order; failed test / remove-move of absent location / index out of range must give an error and no document.",
+         T, "DESIGN.md section 6 C18"),
+ "C19": ("law and differential monitors of C02/C03/C07/C06 run against the legacy package inside its stated domains",
+         "Exploration. MergePatch vs RFC 7396 (object/array patches), CreateMergePatch minimality and round trip (float64-printable numbers), MergeMergePatches composition law, Equal vs structural equality (no escapes).",
+         T, "DESIGN.md section 6 C19"),
+ "C20": ("whole-program monitor: the built json-patch binaries run as child processes, (exit status, stdout, stderr) compared with folding DecodePatch+Apply in-process; strace fault injection for unreadable files",
+         "Exploration. v5 and legacy binaries, 0-4 patch files of 7 kinds in generated, shuffled and repeated orders (valid patches generated against the evolving state so order matters), 1 MiB documents, EIO injected on the first read of a patch file.",
+         "Trusted: the library in the harness process and in the binary are built from the same tree; strace -e inject.", "DESIGN.md section 6 C20"),
 }
 
 NOT_YET = {}
